@@ -462,6 +462,8 @@ pub async fn connect_from(src_ip: &str, dst: SocketAddr) -> std::io::Result<TcpS
     sock.bind(src)?;
     // a small fixed receive buffer: a peer that stops reading blocks the server's writes quickly
     let _ = sock.set_recv_buffer_size(8192);
+    // and a small send buffer: a peer that pipelines until the server stops reading has little in flight
+    let _ = sock.set_send_buffer_size(32 * 1024);
     match tokio::time::timeout(STEP_TIMEOUT, sock.connect(dst)).await {
         Ok(r) => r,
         Err(_) => Err(std::io::Error::from(std::io::ErrorKind::TimedOut)),
